@@ -10,7 +10,7 @@
 //           3 like 1, then the central store is drained into blocks held by T0 (the next alloc of another
 //             thread finds an existing but empty store and must create a slab).
 // program letters:
-//   a alloc            d dealloc my newest block       x export my newest block to my outbox
+//   a alloc   A alloc kIdealNumTLBuffers blocks   d dealloc my newest block   x export my newest block to my outbox
 //   r dealloc a block exported by another thread if there is one     R same, but wait for one
 //   b approxBytesAllocatedSmallBuffer     s start a helper thread running program `h` (it exits afterwards:
 //   its thread-local cache goes back to the central store)           j join my newest helper
@@ -29,6 +29,27 @@ SmallBufferGlobals& getSmallBufferGlobals();
 } // namespace dispenso
 
 namespace {
+// mc_cover() keeps its table with strncmp/strncpy, which TSan intercepts even inside the uninstrumented engine:
+// two threads marking coverage would be reported as a race of the engine with itself.
+static void hcover(const char* name) {
+  mc::TsanIgnore ig;
+  mc::cover(name);
+}
+// A program parameter may list alternatives separated by '|': one of them is picked with mc::choose, so a
+// single run explores every combination of alternatives jointly with the schedules. Returns the index too.
+static std::string pick_alt(const std::string& spec, int* index = nullptr) {
+  std::vector<std::string> alts;
+  size_t from = 0;
+  for (;;) {
+    size_t bar = spec.find('|', from);
+    alts.push_back(spec.substr(from, bar == std::string::npos ? std::string::npos : bar - from));
+    if (bar == std::string::npos) break;
+    from = bar + 1;
+  }
+  int i = alts.size() > 1 ? mc::choose((int)alts.size()) : 0;
+  if (index) *index = i;
+  return alts[(size_t)i];
+}
 constexpr int kMaxT = 10;
 constexpr int kBoxCap = 4;
 
@@ -56,7 +77,7 @@ struct Sba {
   mc::Shared<void*> box[kMaxT][kBoxCap];
   mc::Shared<int> next_thread{1};
   mc::Shared<int> nleft{0};
-  mc::Shared<void*> leftovers[256];
+  mc::Shared<void*> leftovers[1024];
   mc::Shared<int> nallocs{0}, nforeign{0};
   std::string helper_prog;
 
@@ -95,7 +116,7 @@ struct Sba {
           // first hand-out of the last chunk of a slab: this alloc() call created the slab inside the
           // backing-store critical section, and we are in the same scheduler step as its releasing store.
           creator_seen[slab] = true;
-          mc::cover("sba_create_slab");
+          hcover("sba_create_slab");
           int in_cs = (int)g->backingStore.size() - creators_done.get();
           MC_CHECK(in_cs == 1,
                    "mutual exclusion of the backing-store critical section broken: T%d is completing its slab creation while %d "
@@ -103,11 +124,11 @@ struct Sba {
                    self, in_cs - 1, g->backingStore.size(), creators_done.get());
           creators_done.add(1);
         } else {
-          mc::cover("sba_central_dequeue");
-          if (In::tlCount() + 1 < In::kIdeal) mc::cover("sba_partial_dequeue");
+          hcover("sba_central_dequeue");
+          if (In::tlCount() + 1 < In::kIdeal) hcover("sba_partial_dequeue");
         }
       } else {
-        mc::cover("sba_tl_pop");
+        hcover("sba_tl_pop");
       }
     }
     memset(p, 0x40 + self, N);
@@ -125,9 +146,9 @@ struct Sba {
     live.erase(it);
     if (foreign) {
       nforeign.add(1);
-      mc::cover("sba_foreign_dealloc");
+      hcover("sba_foreign_dealloc");
     }
-    if (In::kMax && In::tlCount() + 1 == In::kMax) mc::cover("sba_recycle");
+    if (In::kMax && In::tlCount() + 1 == In::kMax) hcover("sba_recycle");
     (void)self;
   }
 
@@ -151,7 +172,7 @@ struct Sba {
     size_t got = dispenso::approxBytesAllocatedSmallBuffer<N>();
     mc::TsanIgnore ig;
     s1 = slabs();
-    mc::cover("sba_bytes");
+    hcover("sba_bytes");
     if (!In::globals()) return;
     // same scheduler step as the call's unlocking store: nobody may be inside the critical section now
     int in_cs = (int)s1 - creators_done.get();
@@ -191,6 +212,9 @@ struct Sba {
         case 'a':
           held.push_back(alloc(self));
           break;
+        case 'A': // a whole cache refill's worth of blocks, to walk through the central store quickly
+          for (size_t n = 0; n < (In::kIdeal ? In::kIdeal : 1); n++) held.push_back(alloc(self));
+          break;
         case 'd':
           if (!held.empty()) {
             char* p = held.back();
@@ -227,7 +251,7 @@ struct Sba {
               run(id, helper_prog, mine, false);
               finish_thread(id, mine);
             });
-            mc::cover("sba_helper");
+            hcover("sba_helper");
           }
           break;
         case 'j':
@@ -246,7 +270,7 @@ struct Sba {
   void finish_thread(int self, std::vector<char*>& held) {
     for (char* p : held) leftovers[nleft.add(1)].set(p);
     held.clear();
-    if (In::kMax && In::tlCount() > 0) mc::cover("sba_exit_with_cache");
+    if (In::kMax && In::tlCount() > 0) hcover("sba_exit_with_cache");
     (void)self;
   }
 
@@ -275,7 +299,7 @@ struct Sba {
 
   void body(const mc::Params& P) {
     helper_prog = P.s("h", "a");
-    std::string progs[3] = {P.s("t0", ""), P.s("t1", ""), P.s("t2", "")};
+    std::string progs[3] = {pick_alt(P.s("t0", "")), pick_alt(P.s("t1", "")), pick_alt(P.s("t2", ""))};
     std::vector<char*> held0;
     warm_up((int)P("warm", 0), held0);
     size_t held_after_warm = held0.size();
@@ -336,7 +360,8 @@ MC_HARNESS(sba) {
 }
 
 // ---- harnesses `pool` and `nolock` (C42) ------------------------------------------------------------
-// pool:   params cs chunk size, ss slab size, t0..t2 programs over  a alloc, d dealloc my newest chunk,
+// pool:   params cs chunk size, ss slab size, t0..t2 programs (alternatives separated by '|' are all explored;
+//         sym=1 keeps only non-decreasing picks) over  a alloc, d dealloc my newest chunk,
 //         D dealloc my oldest chunk. PoolAllocator shared by the threads; chunks left at the end stay live
 //         until the allocator is destroyed.
 // nolock: params cs, ss, depth. One thread; every history of `depth` operations over
@@ -366,7 +391,7 @@ struct SlabLog {
     alloc_calls++;
     char* p = static_cast<char*>(malloc(n));
     slabs.push_back(Slab{p, n, 0, 0});
-    mc::cover("pool_allocfunc");
+    hcover("pool_allocfunc");
     return p;
   }
   void do_dealloc(void* p) {
@@ -433,7 +458,7 @@ void pool_thread(PA& pa, SlabLog& log, ChunkMap& cm, int self, const std::string
       char* p = pa.alloc();
       cm.on_alloc(log, self, p); // same scheduler step as alloc()'s unlocking store
       held.push_back(p);
-      mc::cover("pool_alloc");
+      hcover("pool_alloc");
     } else if ((op == 'd' || op == 'D') && !held.empty()) {
       char* p = op == 'd' ? held.back() : held.front();
       if (op == 'd')
@@ -442,7 +467,7 @@ void pool_thread(PA& pa, SlabLog& log, ChunkMap& cm, int self, const std::string
         held.pop_front();
       cm.on_dealloc(p);
       pa.dealloc(p);
-      mc::cover("pool_dealloc");
+      hcover("pool_dealloc");
     }
   }
 }
@@ -454,7 +479,11 @@ MC_HARNESS(pool) {
   log.want_size = ss;
   ChunkMap cm;
   cm.chunk = cs;
-  std::string progs[3] = {P.s("t0", ""), P.s("t1", ""), P.s("t2", "")};
+  int idx[3];
+  std::string progs[3] = {pick_alt(P.s("t0", ""), &idx[0]), pick_alt(P.s("t1", ""), &idx[1]), pick_alt(P.s("t2", ""), &idx[2])};
+  // sym=1: the threads draw from the same list; only non-decreasing picks are run (a multiset of programs)
+  if (P("sym", 0) && (idx[1] < idx[0] || (!progs[2].empty() && idx[2] < idx[1]))) return;
+  mc::observe("progs", idx[0] * 64 + idx[1] * 8 + idx[2]);
   {
     dispenso::PoolAllocator pa(cs, ss, [&log](size_t n) { return log.do_alloc(n); }, [&log](void* p) { log.do_dealloc(p); });
     for (int i = 1; i < 3; i++)
@@ -492,7 +521,7 @@ MC_HARNESS(nolock) {
           cm.on_alloc(log, 0, p);
           held.push_back(p);
         }
-        mc::cover("nolock_alloc");
+        hcover("nolock_alloc");
       } else if (op == 1 || op == 2) {
         if (held.empty()) continue;
         char* p = op == 1 ? held.back() : held.front();
@@ -502,15 +531,15 @@ MC_HARNESS(nolock) {
           held.pop_front();
         cm.on_dealloc(p);
         pa.dealloc(p);
-        mc::cover("nolock_dealloc");
+        hcover("nolock_dealloc");
       } else {
         pa.clear(); // everything handed out so far is implicitly returned and must not be dealloc'd
         held.clear();
         cm.live.clear();
         log.recycled_at_clear = (int)log.slabs.size();
         for (auto& s : log.slabs) s.touched_since_clear = 0;
-        mc::cover("nolock_clear");
-        if (log.recycled_at_clear > 1) mc::cover("nolock_clear_multi_slab");
+        hcover("nolock_clear");
+        if (log.recycled_at_clear > 1) hcover("nolock_clear_multi_slab");
       }
       MC_CHECK(pa.totalChunkCapacity() == log.slabs.size() * (ss / cs), "totalChunkCapacity() = %zu with %zu slabs of %zu chunks", pa.totalChunkCapacity(), log.slabs.size(), ss / cs);
     }
